@@ -20,6 +20,8 @@ CHECKS = {
          "Not decided: the numbers (padding bounds), contents of the elements."),
  "C17": ("Sibling agreement of all entry points: forward_methods! instances call their namesake with parameters in order (R1); reference/wrapper/Bump->scope and foreign-Allocator impls forward to their namesake, exceptions tabled (R2); every m/try_m twin pair has the same normalised callee sequence and argument skeleton (R3); layout hint types only from truthful sources, BumpProps copies hints, fast and slow paths agree on T/len (R4); trait-object helpers use the same primitives (R5).",
          "Not decided: 'same offset and byte count' as numbers (needs the hint-independence of C11's arithmetic); value-level equality of results."),
+ "C18": ("Raise: aligning call dominates the type-changing transmute which dominates the closure (R1); lower: BumpAlignGuard constructed before the closure and dropped on return and unwind, its drop aligns with the outer MIN_ALIGN (R2); scoped_aligned takes the checkpoint before aligning (R3); conversions: run-time panics exactly under their stated conditions, shared-borrow conversion writes nothing, the compile-time assertions of every ensure_* are read from the inline-const MIR and every mutable conversion aligns on every path (R4).",
+         "Not decided: numbers; disjointness across alignment regions (C01); that rustc rejects the violating conversions is exercised by C04's witnesses."),
  "C19": ("Ownership protocol of the pool, which discharges the schedule quantifier statically: idle stack only behind the mutex and no stray unsafe (R1); pop -> guard(ManuallyDrop, no Clone) -> take in Drop -> push, guard constructed only in the get family (R2); constructor calls only after pop() returned None (R3); pool-wide reset forwards (R5). Lifetime / Send / Sync clauses are decided by rustc on the witness corpus (R4, with C04).",
          "Not decided: fairness and timing; 'number of arenas never exceeds the peak' as a number (follows from R2+R3, not computed)."),
  "C07": ("The panicking error behaviour is uninhabited and its constructors diverge (R1); binding-aware call-graph proof that no try_* function and no allocator-interface method reaches the allocation-failure panic set or binds an ErrorBehavior parameter to Infallible (R2); failed chunk creation links nothing (R3); reserve-before-write in every single-operation E-generic collection method (R4); checked size computations with error-constructing failure edges, never unwrapped (R5).",
